@@ -40,9 +40,9 @@ CFG = {
             "elements (a set tag 258 dropped, an array/map made indefinite or a head widened anywhere inside the element, nested sets of composite elements included: pool registrations with owners, committee updates with members_to_remove), the same re-spelled elements handed to add/contains (decoded vs API-built provenance), undecodable elements, a null, with/without break / from_json with repeats / Ed25519KeyHashes::from(&NativeScripts); (ws) sequences of the "
             "typed setters with repeated native scripts, plutus scripts of 3 languages, datums with and without preserved (canonical and non-canonical) bytes, "
             "collections of every provenance (hand-built, cloned, decoded from tagged/untagged/indefinite bytes with repeats and extended by add, taken from another witness set's getter); (ma) MultiAsset via set_asset/insert, from_bytes of maps in arbitrary key order with repeated keys, "
-            "from_json, names of length 0..32 around the head boundary 23/24, all orders of 3 (4) triples; (mint) MintBuilder add/set histories incl. amounts that "
+            "from_json, names of length 0..32 around the head boundary 23/24, all orders of 3 (4) triples; (mint) MintBuilder add/set histories over native and Plutus policies (witness script / reference input) with interleaving policy ids, every order of mixed add_asset calls, amounts that "
             "cancel; (tx) TransactionBuilder scenarios with 0-8 explicit reference inputs, script-source reference inputs, overlapping regular inputs, both values "
-            "of the dedup flag, required signers with repeats, collateral, native and Plutus mint policies, Plutus-script inputs / withdrawals / certificates with witness datums and redeemers (the same script or datum arriving from several items and as extra datum, constructed and decoded-from-bytes copies), repeated native scripts and extra datums; scripts and datums are read from the EMITTED witness-set bytes decoded again; each scenario built 3 times, rebuilt and built in "
+            "of the dedup flag, required signers with repeats, collateral, native and Plutus mint policies, Plutus-script inputs / withdrawals / certificates with witness datums and redeemers (the same script or datum arriving from several items and as extra datum, constructed and decoded-from-bytes copies), withdrawals and certificates witnessed by several distinct inline native scripts (emitted script order compared with the model), repeated native scripts and extra datums; scripts and datums are read from the EMITTED witness-set bytes decoded again; each scenario built 3 times, rebuilt and built in "
             "a second process; non-trivial = distinct case whose model observation is a full (ok) observation",
     "trusted_base": [
         "element identity = canonical CBOR bytes of the element (harness computes it with the library's own element codec; C01 proves the codecs)",
